@@ -155,6 +155,98 @@ let run_multi (toks : string array) : string =
   for _ = 1 to nc do s := sh_net !s b (EHead (z_of_int 404)) done;
   Printf.sprintf "S{%s}R{%s}F{%s}B{%s/%d/%s}" (String.concat " " !snaps) res fin (res_text !s nc) q (snap ())
 
+(* locate_file for binaries / extra debug info (first token kB | kD): the machine of C16/FileFetch.v (fetch_lookup: no parse, no
+   note, caching not optional, persist_noclobber never replaces).  Same scripts, same observables; the result is OK:L (a local
+   path has the file), OK:C (the answer is the cache path: already there, or downloaded), E:NotFound. *)
+let run_file (toks : string array) : string =
+  let pos = ref 1 in
+  let next () = let t = toks.(!pos) in incr pos; t in
+  let df = next () in let id = next () in let _cf = next () in let ci = next () in
+  let pre = next () in
+  let nloc = int_of_string (next ()) in
+  let locals = List.init nloc (fun _ -> next () <> "-") in
+  let env = next () in
+  let drop = next () in
+  let _tmo = next () in
+  let ns = int_of_string (next ()) in
+  let mk = env <> "c" && env <> "d" && env <> "i" in
+  let cr = env <> "t" && env <> "m" in
+  let wlim = if env.[0] = 'w' then int_of_string (String.sub env 1 (String.length env - 1)) else -1 in
+  let e = mk_env mk cr (z_of_int wlim) true true in
+  let unmodelled = ref (df = "N" || id = "N" || ci = "N") in
+  let servers = ref [] and scripts = ref [] in
+  for i = 0 to ns - 1 do
+    let parts = Array.of_list (String.split_on_char ';' (next ())) in
+    let status = int_of_string parts.(0) in
+    let fr = parts.(1) in
+    let offs = if String.length fr > 1
+      then List.map int_of_string (String.split_on_char ',' (String.sub fr 1 (String.length fr - 1))) else [] in
+    let cut = parts.(2) in
+    let body = unhex parts.(4) in
+    if parts.(3) <> "-" || Array.length parts > 5 then unmodelled := true;
+    let blen = List.length body in
+    let decl, offs = if fr.[0] = 'M' then (match offs with d :: r -> (d, r) | [] -> (blen, [])) else (blen, offs) in
+    let is_len = fr.[0] = 'L' || fr.[0] = 'S' || fr.[0] = 'M' in
+    let (no_head, delivered, ending) =
+      if cut = "h" then (true, [], 1)
+      else
+        let k = if cut = "-" then blen else min blen (int_of_string (String.sub cut 1 (String.length cut - 1))) in
+        if fr.[0] = 'E' && (cut = "-" || cut.[0] = 'c') then (false, firstn k body, 0)
+        else if is_len && (cut = "-" || cut.[0] = 'c') && k >= decl then (false, firstn decl body, 0)
+        else if cut = "-" && not is_len then (false, body, 0)
+        else (false, firstn k body, 1) in
+    let chunks = split_at delivered (List.sort compare offs) 0 in
+    servers := !servers @ [{ s_id = z_of_int i; s_url = []; s_env = e }];
+    scripts := !scripts @ [script_events (z_of_int status) no_head chunks (z_of_int ending)]
+  done;
+  if !unmodelled then "?" else
+  let pre_kind, pre_c =
+    if env = "c" || pre = "-" then (0, []) else if pre = "D" then (2, [])
+    else (1, unhex (String.sub pre 1 (String.length pre - 1))) in
+  let f0 = init_fs (z_of_int pre_kind) pre_c in
+  let flatten f scripts =
+    let evs = ref [] in
+    List.iteri (fun i sc ->
+      List.iter (fun ev ->
+        let s = file_lookup f locals !servers !evs in
+        if q_pending s && int_of_z (q_cur s) = i then evs := !evs @ [ev]) sc) scripts;
+    !evs in
+  let off_scripts = List.init ns (fun _ -> script_events (z_of_int 404) false [] (z_of_int 0)) in
+  let second f = file_lookup f locals !servers (flatten f off_scripts) in
+  let fblock s with_q with_d =
+    let r = match int_of_z (q_result s) with
+      | 0 -> if List.exists (fun x -> x) locals then "OK:L" else "OK:C"
+      | 1 -> "OK:C" | 2 -> "E:NotFound" | 3 -> "DROPPED" | _ -> "PENDING" in
+    let q = match q_olog s with [] -> "-" | l -> String.concat "," (List.map string_of_z l) in
+    let c = match fs_cache (q_ofs s) with
+      | Some (File b) -> Printf.sprintf "%d:%d" (List.length b) (crc32 b)
+      | _ -> "-" in
+    let t = match fs_tmp (q_ofs s) with [] -> "-" | l -> String.concat "," (List.map string_of_z l) in
+    Printf.sprintf "r=%s%s c=%s t=%s%s" r (if with_q then " q=" ^ q else "") c t
+      (if with_d then (if fs_cdir (q_ofs s) then " d=1" else " d=0") else "") in
+  let evs = flatten f0 !scripts in
+  let s1 = file_lookup f0 locals !servers evs in
+  let s2 = second (q_ofs s1) in
+  let out = Buffer.create 256 in
+  Buffer.add_string out (Printf.sprintf "A{%s}B{%s}" (fblock s1 true true) (fblock s2 true true));
+  if drop <> "-" then begin
+    let n = List.length evs in
+    let preds = ref [] in
+    let addp p = if not (List.mem p !preds) then preds := !preds @ [p] in
+    let c0 = (match pre_kind with 1 -> Printf.sprintf "%d:%d" (List.length pre_c) (crc32 pre_c) | _ -> "-") in
+    addp (Printf.sprintf "X{r=DROPPED c=%s t=%s}Y{%s}" c0 "-" (fblock (second f0) true false));
+    for k = 0 to n do
+      let pfx = take_events (z_of_int k) evs in
+      let sk = file_lookup f0 locals !servers pfx in
+      if q_pending sk then begin
+        let sd = file_lookup f0 locals !servers (pfx @ [ev_drop]) in
+        addp (Printf.sprintf "X{%s}Y{%s}" (fblock sd false false) (fblock (second (q_ofs sd)) true false))
+      end
+    done;
+    Buffer.add_string out (String.concat "|" !preds)
+  end;
+  Buffer.contents out
+
 let () =
   try
     while true do
@@ -171,6 +263,7 @@ let () =
            without debug file/id (code-info redirect), inputs with a line in the band where the
            over-long-line recovery depends on buffer alignment *)
         if toks.(0) = "kM" then print_endline (run_multi toks) else
+        if toks.(0) = "kB" || toks.(0) = "kD" then print_endline (run_file toks) else
         if toks.(0).[0] = 'k' || toks.(0) = "N" || toks.(1) = "N" then print_endline "?" else
         let df = unhex (next ()) in
         let id = next () in
